@@ -257,6 +257,7 @@ def work(p):
     sys.path.insert(0, d)
     if p.get("twin"):
         twin_case(res)
+        same_site_case(res)
     for spec in p["programs"]:
         rng = random.Random(spec["seed"])
         opts = {}
@@ -360,6 +361,66 @@ def twin_case(res):
         sys.modules.pop("vftwin_b", None)
 
 
+def same_site_case(res):
+    """Different functions that share file name, first line and name (a module edited and reloaded while tracing; generated
+    methods compiled from one pseudo file, as dataclass-style code generators do) must each be attributed to the code that ran."""
+    import importlib
+
+    from monkeytype.tracing import trace_calls
+
+    d = core.scratch("c02site")
+    path = os.path.join(d, "vfsite_mod.py")
+    v1 = "class P:\n    pass\n\n\ndef helper(a):\n    return a\n\n\nclass K:\n    def m(self, a):\n        return a\n"
+    v2 = "class P:\n    pass\n\n\ndef helper(a, b=1):\n    return (a, b)\n\n\nclass K:\n    def m(self, a, c=''):\n        return [a]\n"
+    open(path, "w").write(v1)
+    sys.path.insert(0, d)
+    try:
+        importlib.invalidate_caches()
+        mod = importlib.import_module("vfsite_mod")
+        genfile = os.path.join(d, "vfsite_generated.py")
+
+        def make_class(name, fields):
+            src = "def __init__(self, " + ", ".join(fields) + "):\n" + "".join(f"    self.{f} = {f}\n" for f in fields)
+            ns = {"__name__": "vfsite_mod"}
+            exec(compile(src, genfile, "exec"), ns)  # noqa: S102 - what dataclass-style generators do
+            fn = ns["__init__"]
+            fn.__qualname__ = name + ".__init__"
+            cls = type(name, (), {"__init__": fn, "__module__": "vfsite_mod"})
+            setattr(mod, name, cls)
+            return cls
+
+        Point, Label = make_class("Point", ["x", "y"]), make_class("Label", ["text"])
+        lg = make_logger()
+        ran = []
+        with trace_calls(lg, 0, lambda code: code.co_filename.startswith(d)):
+            mod.helper(1)
+            ran.append((mod.helper.__code__, ["a"]))
+            mod.K().m(1)
+            ran.append((mod.K.m.__code__, ["self", "a"]))
+            Point(1, 2)
+            ran.append((Point.__init__.__code__, ["self", "x", "y"]))
+            Label("s")
+            ran.append((Label.__init__.__code__, ["self", "text"]))
+            # the module is edited (same lines, other signatures) and reloaded while the tracer stays installed
+            open(path, "w").write(v2)
+            os.utime(path, (1, 1))
+            importlib.invalidate_caches()
+            mod = importlib.reload(mod)
+            mod.helper("s")
+            ran.append((mod.helper.__code__, ["a", "b"]))
+            mod.K().m("s")
+            ran.append((mod.K.m.__code__, ["self", "a", "c"]))
+        res.count("evaluations")
+        res.count("same_definition_site_cases")
+        got = [(t.func.__qualname__, t.func.__code__ is code, sorted(t.arg_types) == sorted(names)) for t, (code, names) in zip(lg.traces, ran)]
+        if len(lg.traces) != len(ran) or not all(g[1] and g[2] for g in got):
+            res.violation("functions-sharing-a-definition-site-conflated",
+                          f"{len(lg.traces)} traces for {len(ran)} calls; per call (qualname, func is the code that ran, argument names match): {got}", {"same_site": True})
+    finally:
+        sys.path.remove(d)
+        sys.modules.pop("vfsite_mod", None)
+
+
 def pinned(prop):
     """Pinned witnesses of listed findings (findings/<prop>/*.json): executed first in both tiers."""
     d = os.path.join(core.VERIF, "findings", prop)
@@ -385,6 +446,7 @@ def run(ck):
     ck.need("interleavings", 50, "fewer than 50 distinct interleaving orders of live frames")
     ck.need("control_runs", 20)
     ck.need("twin_cases", 1)
+    ck.need("same_definition_site_cases", 1)
     ck.need("prestart_programs", 50)
     ck.need("completions_on_another_thread", 100, "no generator was finished by a worker thread")
     ck.need("untypable_completions_without_trace", 50, "no call returned a value whose type cannot be collected")
